@@ -767,13 +767,34 @@ theorem m_factorText (e : Env) (red : Bool → RNode → RNode) (hred : RedSound
     rw [hc, mA_single] at h; exact h
   · rw [m_alt]; exact h
 
-theorem samePrefix_eq {a b : RNode} (h : samePrefix a b = true) : b = a := by
+/-- a fixed repeater `x{n}` has the same successes in the three kinds -/
+theorem repeater_kind_irrelevant (e : Env) (p : CP) (n : Nat) (k k' : LK) (st : St) :
+    m e (cloopPat k p n (some n)) false st = m e (cloopPat k' p n (some n)) false st := by
+  have hg : ∀ k, m e (cloopPat k p n (some n)) false st = m e (.quant false n (some n) (.chr p.pred)) false st := by
+    intro k
+    cases k with
+    | greedy => rfl
+    | lzy => exact AutoAtomic.repeater_lazy_eq_greedy e p.pred n st
+    | atomic =>
+      simp only [cloopPat]
+      rw [m_atomic]
+      exact take_one_of_length_le _ (atMostOne_quant_fixed false n (atMostOne_chr e false _) st)
+  rw [hg k, hg k']
+
+/-- what `samePrefix` accepts has the same successes (left-to-right): the same node, or — `fk` — the same
+    fixed repeater in another kind -/
+theorem samePrefix_m (e : Env) {fk : Bool} {a b : RNode} (h : samePrefix fk a b = true) (st : St) :
+    m e (toPat false b) false st = m e (toPat false a) false st := by
   cases a <;> cases b <;> simp [samePrefix] at h
   case chr.chr o p o' p' => obtain ⟨rfl, rfl⟩ := h; rfl
-  case cloop.cloop o k p lo hi o' k' p' lo' hi' => obtain ⟨⟨⟨⟨rfl, rfl⟩, rfl⟩, rfl⟩, rfl⟩ := h; rfl
+  case cloop.cloop o k p lo hi o' k' p' lo' hi' =>
+    obtain ⟨⟨⟨⟨rfl, hk⟩, rfl⟩, rfl⟩, rfl⟩ := h
+    rcases hk with rfl | ⟨_, rfl⟩
+    · rfl
+    · exact repeater_kind_irrelevant e p lo k' k st
 
-theorem countSame_spec (req : RNode) : ∀ (rest : List RNode),
-    ∀ b ∈ rest.take (countSame req rest), firstOf b = some req
+theorem countSame_spec (fk : Bool) (req : RNode) : ∀ (rest : List RNode),
+    ∀ b ∈ rest.take (countSame fk req rest), ∃ c, firstOf b = some c ∧ samePrefix fk req c = true
   | [] => by simp [countSame]
   | b :: bs => by
     simp only [countSame]
@@ -781,12 +802,12 @@ theorem countSame_spec (req : RNode) : ∀ (rest : List RNode),
     | none => simp
     | some c =>
       simp only
-      by_cases hs : samePrefix req c = true
+      by_cases hs : samePrefix fk req c = true
       · simp only [hs, if_true, List.take_succ_cons, List.mem_cons]
         intro x hx
         rcases hx with rfl | hx
-        · rw [hb, samePrefix_eq hs]
-        · exact countSame_spec req bs x hx
+        · exact ⟨c, hb, hs⟩
+        · exact countSame_spec fk req bs x hx
       · simp [hs]
 
 theorem firstOf_sound (e : Env) {b req : RNode} (h : firstOf b = some req) (st : St) :
@@ -809,8 +830,8 @@ theorem atMostOne_fixedPrefix (e : Env) {req : RNode} (h : fixedPrefix req = tru
     · exact atMostOne_quant_fixed true lo (atMostOne_chr e false _)
     · exact atMostOne_atomic e false _
 
-theorem aEq_factorSetGo (e : Env) (red : Bool → RNode → RNode) (hred : RedSound e false red) (pa : Bool) (o : Nat) :
-    ∀ (fuel : Nat) (cs : List RNode), AEq pa e false (factorSetGo red pa o fuel cs) cs := by
+theorem aEq_factorSetGo (e : Env) (red : Bool → RNode → RNode) (hred : RedSound e false red) (fk pa : Bool) (o : Nat) :
+    ∀ (fuel : Nat) (cs : List RNode), AEq pa e false (factorSetGo red fk pa o fuel cs) cs := by
   intro fuel
   induction fuel with
   | zero => intro cs; simp only [factorSetGo]; exact AEq.refl _ _ _ _
@@ -827,11 +848,11 @@ theorem aEq_factorSetGo (e : Env) (red : Bool → RNode → RNode) (hred : RedSo
         simp only
         by_cases hf : fixedPrefix req = true
         · simp only [hf, Bool.not_true, Bool.false_eq_true, if_false]
-          by_cases hk : countSame req (y :: rest) = 0
+          by_cases hk : countSame fk req (y :: rest) = 0
           · simp only [hk, if_true]; exact AEq.cons x (ih (y :: rest))
           · simp only [hk, if_false]
             have hsplit : x :: y :: rest =
-                (x :: (y :: rest).take (countSame req (y :: rest))) ++ (y :: rest).drop (countSame req (y :: rest)) := by
+                (x :: (y :: rest).take (countSame fk req (y :: rest))) ++ (y :: rest).drop (countSame fk req (y :: rest)) := by
               simp [List.take_append_drop]
             conv => rhs; rw [hsplit]
             refine AEq.append (a := [_]) ?_ (ih _)
@@ -841,17 +862,18 @@ theorem aEq_factorSetGo (e : Env) (red : Bool → RNode → RNode) (hred : RedSo
             simp only [List.mem_cons] at hb
             rcases hb with rfl | hb
             · exact firstOf_sound e hx st
-            · exact firstOf_sound e (countSame_spec req (y :: rest) b hb) st
+            · obtain ⟨c, hc, hsame⟩ := countSame_spec fk req (y :: rest) b hb
+              rw [firstOf_sound e hc st, m_seq_ltr, m_seq_ltr, samePrefix_m e hsame st]
         · have : fixedPrefix req = false := by simpa using hf
           simp only [this, Bool.not_false, if_true]
           exact AEq.cons x (ih (y :: rest))
 
 theorem m_factorSet (e : Env) (red : Bool → RNode → RNode) (hred : RedSound e false red) (pa : Bool) (o : Nat)
-    (cs : List RNode) : NEq pa e false (factorSet red pa o cs) (.alt o cs) := by
+    (cs : List RNode) (fk : Bool := false) : NEq pa e false (factorSet red fk pa o cs) (.alt o cs) := by
   intro st
   unfold factorSet
   split
-  · rw [m_mkAlt, m_alt]; exact aEq_factorSetGo e red hred pa o cs.length cs st
+  · rw [m_mkAlt, m_alt]; exact aEq_factorSetGo e red hred fk pa o cs.length cs st
   · exact LRel.refl _ _
 
 /-! ## merging One/Set branches (`reduceSingleLetterAndNestedAlternations`), proved variant: disjoint
@@ -1074,9 +1096,9 @@ theorem nEq_removeEmpties (e : Env) (h rtl : Bool) (o : Nat) (cs : List RNode) :
   rw [m_mkAlt, m_alt]
   exact aEq_removeEmptiesGo h e rtl cs false st
 
-theorem reduceAltFrom_sound (e : Env) (red : Bool → RNode → RNode) (on pa rtl : Bool)
+theorem reduceAltFrom_sound (e : Env) (red : Bool → RNode → RNode) (fk on pa rtl : Bool)
     (hred : rtl = false → RedSound e false red) (n1 : RNode) :
-    NEq pa e rtl (reduceAltFrom red false on pa rtl n1) n1 := by
+    NEq pa e rtl (reduceAltFrom red false fk on pa rtl n1) n1 := by
   unfold reduceAltFrom
   split
   · rename_i o1 cs1
@@ -1091,12 +1113,12 @@ theorem reduceAltFrom_sound (e : Env) (red : Bool → RNode → RNode) (on pa rt
     · rename_i o2 cs2 heq2
       rw [heq2] at h2
       refine NEq.trans ?_ h2
-      have h3 : NEq pa e rtl (if (on && !rtl) = true then factorSet red pa o2 cs2 else .alt o2 cs2) (.alt o2 cs2) := by
+      have h3 : NEq pa e rtl (if (on && !rtl) = true then factorSet red fk pa o2 cs2 else .alt o2 cs2) (.alt o2 cs2) := by
         split
         · rename_i hc
           simp only [Bool.and_eq_true, Bool.not_eq_true'] at hc
           obtain ⟨_, rfl⟩ := hc
-          exact m_factorSet e red (hred rfl) pa o2 cs2
+          exact m_factorSet e red (hred rfl) pa o2 cs2 fk
         · exact NEq.refl _ _ _ _
       split
       · rename_i o3 cs3 heq3
@@ -1107,16 +1129,16 @@ theorem reduceAltFrom_sound (e : Env) (red : Bool → RNode → RNode) (on pa rt
   · exact NEq.refl _ _ _ _
 
 /-- **`reduceAlternation` (proved variant) keeps the successes** — the first success when the parent is Atomic -/
-theorem reduceAlt_sound (e : Env) (ht : TextOK e) (red : Bool → RNode → RNode) (on pa rtl : Bool)
+theorem reduceAlt_sound (e : Env) (ht : TextOK e) (red : Bool → RNode → RNode) (fk on pa rtl : Bool)
     (hred : rtl = false → RedSound e false red) (o : Nat) (cs : List RNode) :
-    NEq pa e rtl (reduceAlt red false on pa rtl o cs) (.alt o cs) := by
+    NEq pa e rtl (reduceAlt red false fk on pa rtl o cs) (.alt o cs) := by
   unfold reduceAlt
   match cs with
   | [] => intro st; simp [toPat, altOf, toPats]; exact LRel.refl _ _
   | [c] => intro st; simp [toPat, altOf, toPats]; exact LRel.refl _ _
   | a :: b :: rest =>
     simp only
-    exact (reduceAltFrom_sound e red on pa rtl hred _).trans (nEq_mkAlt_mergeLetters e ht pa rtl o (a :: b :: rest))
+    exact (reduceAltFrom_sound e red fk on pa rtl hred _).trans (nEq_mkAlt_mergeLetters e ht pa rtl o (a :: b :: rest))
 
 /-! ## the alternation block of `reduceAtomic` -/
 
@@ -1462,8 +1484,8 @@ theorem reduceAtomic_sound (e : Env) (red : Bool → RNode → RNode) (on rtl : 
 
 /-- **one `reduce()` (proved variant) keeps the successes of the node** — its first success when the
     parent is an Atomic node -/
-theorem reduceNode_sound (e : Env) (ht : TextOK e) (on rtl : Bool) :
-    ∀ (fuel : Nat) (pa : Bool) (n : RNode), NEq pa e rtl (reduceNode false on rtl fuel pa n) n := by
+theorem reduceNode_sound (e : Env) (ht : TextOK e) (fk on rtl : Bool) :
+    ∀ (fuel : Nat) (pa : Bool) (n : RNode), NEq pa e rtl (reduceNode false fk on rtl fuel pa n) n := by
   intro fuel
   induction fuel with
   | zero => intro pa n; exact NEq.refl _ _ _ _
@@ -1471,7 +1493,7 @@ theorem reduceNode_sound (e : Env) (ht : TextOK e) (on rtl : Bool) :
     intro pa n
     cases n <;> simp only [reduceNode]
     case alt o cs =>
-      exact reduceAlt_sound e ht _ on pa rtl (fun h => by subst h; exact fun pa n => ih pa n) o cs
+      exact reduceAlt_sound e ht _ fk on pa rtl (fun h => by subst h; exact fun pa n => ih pa n) o cs
     case cat o cs => exact NEq.of_eq (fun st => LRel.of_eq (reduceCat_sound e rtl o cs st))
     case atomic b =>
       exact NEq.of_eq (fun st => LRel.of_eq
@@ -1480,8 +1502,8 @@ theorem reduceNode_sound (e : Env) (ht : TextOK e) (on rtl : Bool) :
     case cloop o k p lo hi => exact NEq.of_eq (fun st => LRel.of_eq (reduceCP_cloop e o k p lo hi rtl st))
     all_goals exact NEq.refl _ _ _ _
 
-theorem redSound_reduceNode (e : Env) (ht : TextOK e) (on : Bool) (fuel : Nat) :
-    RedSound e false (reduceNode false on false fuel) := fun pa n => reduceNode_sound e ht on false fuel pa n
+theorem redSound_reduceNode (e : Env) (ht : TextOK e) (on : Bool) (fuel : Nat) (fk : Bool := false) :
+    RedSound e false (reduceNode false fk on false fuel) := fun pa n => reduceNode_sound e ht fk on false fuel pa n
 
 /-! ## the ending walk: same first success -/
 
@@ -1593,11 +1615,11 @@ theorem endElim_rtl (red : Bool → RNode → RNode) (fuel : Nat) (pa w : Bool) 
     endElim red fuel true pa w n = n := by
   cases fuel <;> simp [endElim]
 
-theorem endElim_headEq' (e : Env) (ht : TextOK e) (on : Bool) (fuel f : Nat) (rtl pa w : Bool) (n : RNode) :
-    HeadEq e rtl (toPat rtl (endElim (reduceNode false on rtl fuel) f rtl pa w n)) (toPat rtl n) := by
+theorem endElim_headEq' (e : Env) (ht : TextOK e) (on : Bool) (fuel f : Nat) (rtl pa w : Bool) (n : RNode) (fk : Bool := false) :
+    HeadEq e rtl (toPat rtl (endElim (reduceNode false fk on rtl fuel) f rtl pa w n)) (toPat rtl n) := by
   cases rtl with
   | true => rw [endElim_rtl]; exact HeadEq.refl _ _ _
-  | false => exact endElim_headEq e _ (redSound_reduceNode e ht on fuel) f false pa w n
+  | false => exact endElim_headEq e _ (redSound_reduceNode e ht on fuel fk) f false pa w n
 
 /-! ## the bottom-up pass -/
 
@@ -1609,23 +1631,23 @@ theorem reduceAll_sound (e : Env) (ht : TextOK e) (on dg : Bool) (fuel : Nat) :
   | .alt o cs, rtl, pa => by
     rw [reduceAll]
     split
-    · refine (reduceNode_sound e ht on rtl fuel pa _).trans (NEq.of_eq ?_)
+    · refine (reduceNode_sound e ht false on rtl fuel pa _).trans (NEq.of_eq ?_)
       intro st
       rw [m_alt, m_alt]
       exact (reduceAlls_sound e ht on dg fuel cs rtl).1 st
-    · exact reduceAltFrom_sound e _ on pa rtl (fun h => by subst h; exact redSound_reduceNode e ht on fuel) _
+    · exact reduceAltFrom_sound e _ false on pa rtl (fun h => by subst h; exact redSound_reduceNode e ht on fuel) _
   | .cat o cs, rtl, pa => by
     rw [reduceAll]
     split
-    · refine (reduceNode_sound e ht on rtl fuel pa _).trans (NEq.of_eq ?_)
+    · refine (reduceNode_sound e ht false on rtl fuel pa _).trans (NEq.of_eq ?_)
       intro st
       rw [m_cat, m_cat]
       exact LRel.of_eq ((reduceAlls_sound e ht on dg fuel cs rtl).2 st)
     · exact NEq.refl _ _ _ _
   | .atomic b, rtl, pa => by
     rw [reduceAll]
-    have hb : NEq pa e rtl (reduceNode false on rtl fuel pa (.atomic (reduceAll false on dg fuel rtl dg b))) (.atomic b) := by
-      refine (reduceNode_sound e ht on rtl fuel pa _).trans (NEq.of_eq ?_)
+    have hb : NEq pa e rtl (reduceNode false false on rtl fuel pa (.atomic (reduceAll false on dg fuel rtl dg b))) (.atomic b) := by
+      refine (reduceNode_sound e ht false on rtl fuel pa _).trans (NEq.of_eq ?_)
       intro st
       simp only [toPat]
       exact LRel.of_eq (atomic_eq_of_headEq (NEq.headEq (reduceAll_sound e ht on dg fuel b rtl dg)) st)
@@ -1671,7 +1693,7 @@ theorem reduceAll_sound (e : Env) (ht : TextOK e) (on dg : Bool) (fuel : Nat) :
     have hc : HeadEq e rtl (toPat rtl (reduceAll false on dg fuel rtl false c)) (toPat rtl c) :=
       NEq.headEq (reduceAll_sound e ht on dg fuel c rtl false)
     have hc' : HeadEq e rtl
-        (toPat rtl (if on = true then endElim (reduceNode false on rtl fuel) fuel rtl false false (reduceAll false on dg fuel rtl false c)
+        (toPat rtl (if on = true then endElim (reduceNode false false on rtl fuel) fuel rtl false false (reduceAll false on dg fuel rtl false c)
           else reduceAll false on dg fuel rtl false c)) (toPat rtl c) := by
       split
       · exact (endElim_headEq' e ht on fuel fuel rtl false false _).trans hc
@@ -1695,10 +1717,10 @@ end
 
 /-- **the whole model of the gated rewrites keeps the first success of the pattern** (and all
     successes below the ending walk) -/
-theorem rewriteTop_headEq (e : Env) (ht : TextOK e) (dg : Bool) (fuel : Nat) (rtl : Bool) (n : RNode) :
-    HeadEq e rtl (toPat rtl (rewriteTop false dg fuel rtl n)) (toPat rtl n) := by
+theorem rewriteTop_headEq (e : Env) (ht : TextOK e) (fk dg : Bool) (fuel : Nat) (rtl : Bool) (n : RNode) :
+    HeadEq e rtl (toPat rtl (rewriteTop false fk dg fuel rtl n)) (toPat rtl n) := by
   unfold rewriteTop
-  exact (endElim_headEq' e ht true fuel fuel rtl false true _).trans
+  exact (endElim_headEq' e ht true fuel fuel rtl false true _ fk).trans
     (NEq.headEq (reduceAll_sound e ht true dg fuel n rtl false))
 
 /-! ## the bump-along marker -/
